@@ -316,6 +316,13 @@ def known_findings():
     return known, fixed
 
 
+def load_lock():
+    p = os.path.join(ROOT, 'specs', 'assumptions.lock')
+    if not os.path.exists(p) or os.environ.get('VERIF_RELOCK'):
+        return None
+    return json.load(open(p))
+
+
 def obligation_name(unit, e):
     fn = (e['fn'] or '<lemma>').replace(' ', '')
     return '%s::%s::%s' % (unit, fn, e['kind'])
@@ -412,8 +419,13 @@ def check_property(pid, tier, seed, reg, results_cache):
                 if k not in in_cone and resolves(f, call, g):
                     in_cone.add(k)
                     work.append(g)
+    lock = load_lock()
     for r in results:
         scan.update('%s: %s' % (r['unit'], a) for a in r.get('assumption_scan', []))
+        if lock is not None and r['status'] != 'undecided':
+            extra = sorted(set(r.get('assumption_scan', [])) - set(lock.get('units', {}).get(r['unit'], [])))
+            if extra:
+                undecided.append({'unit': r['unit'], 'why': ['assumption scan differs from specs/assumptions.lock (new, unreviewed assumption): ' + '; '.join(extra)[:600]]})
         smt_ms += r.get('smt_ms', 0)
         if r['status'] == 'undecided':
             # undecided only matters if the unit carries functions of this property
@@ -510,6 +522,9 @@ def check_property(pid, tier, seed, reg, results_cache):
         lines.append('VIOLATION property=%s replay=%s%s' % (pid, replay_path, suffix))
     elif undecided or vac:
         rc = 2
+    if lock is not None and rc == 0 and obligations < lock.get('min_obligations', {}).get(pid, 1):
+        undecided.append({'unit': '*', 'why': ['only %d obligations were generated, the lock records %d: the check would be (partly) vacuous' % (obligations, lock['min_obligations'][pid])]})
+        rc = 2
     for ob, what in sorted(set(known_seen)):
         lines.append('KNOWN-FINDING: property=%s %s (%s)' % (pid, what, ob))
 
@@ -584,12 +599,18 @@ def main():
     props = sorted(reg['properties']) if args.prop == 'all' else [args.prop]
     cache = {}
     worst = 0
+    relock = {'units': {}, 'min_obligations': {}} if (os.environ.get('VERIF_RELOCK') and args.prop == 'all' and REPO == '/repo') else None
     for pid in props:
         if pid not in reg['properties']:
             print('property %s is not claimed (see MANIFEST not_applicable)' % pid)
             sys.exit(2)
         rc, lines, ev, undecided, vac = check_property(pid, args.tier, seed, reg, cache)
         cov = ev['coverage']
+        if relock is not None:
+            relock['min_obligations'][pid] = cov['obligations']
+            for k, v in cache.items():
+                if isinstance(v, dict) and 'assumption_scan' in v:
+                    relock['units'][v['unit']] = v['assumption_scan']
         print('[%s] tier=%s obligations=%d discharged=%d violations=%d undecided=%d wall=%.1fs' %
               (pid, args.tier, cov['obligations'], cov['discharged'], ev['violations'], len(undecided), ev['wall_s']))
         for u in undecided:
@@ -600,6 +621,9 @@ def main():
             print(ln)
         if rc == 1 or (rc == 2 and worst == 0):
             worst = rc
+    if relock is not None and worst == 0:
+        json.dump(relock, open(os.path.join(ROOT, 'specs', 'assumptions.lock'), 'w'), indent=1, sort_keys=True)
+        print('wrote specs/assumptions.lock')
     sys.exit(worst)
 
 
